@@ -6,21 +6,9 @@ cd "$(dirname "$0")"
 export GOFLAGS=-mod=mod GOPROXY=off
 mkdir -p .work/bin evidence
 (cd extract && go build -o ../.work/bin/extract .)
-.work/bin/extract -repo "${VERIF_REPO:-/repo}" -spec extract/spec.json -out lean/TunnoxModel/Gen
+.work/bin/extract -repo "${VERIF_REPO:-/repo}" -specs extract/spec.d -out lean/TunnoxModel/Gen
+python3 tools_gen_lean_roots.py
 (cd lean && lake build TunnoxModel driver)
 # warm the Go build cache for the harnesses (errors here are reported by the checks themselves)
-python3 - <<'PY' || true
-import importlib.util, os, sys
-sys.argv = ["check"]
-spec = importlib.util.spec_from_loader("check", loader=None)
-src = open("check").read()
-ns = {"__name__": "setup"}
-exec(compile(src, "check", "exec"), ns)
-for f in sorted(os.listdir("checks")):
-    if f.endswith(".py"):
-        s = ns["load_spec"](f[:-3].upper())
-        b = []
-        ns["build_harness"](s, b)
-        if b: print("setup: harness", f, "did not build:", b[0]["what"])
-PY
+for f in checks/c*.py; do id=$(basename "$f" .py); ./check "$id" --warm || true; done
 echo "setup done"
